@@ -36,7 +36,7 @@ META = {
                     'the objects keep their relative order across the P orders (only reference positions move)',
                     'the "printed number" clause is checked as self-consistency with the target; whether that number is '
                     'LaTeX\'s is C08 (not applicable)'],
-    'probe_names': ['forward_ref', 'backward_ref', 'inside_ref', 'two_pending_same_label', 'dangling_ref',
+    'probe_names': ['ref_in_title', 'ref_in_footnote', 'forward_ref', 'backward_ref', 'inside_ref', 'two_pending_same_label', 'dangling_ref',
                     'pageref', 'label_on_item', 'label_on_caption', 'label_on_theorem', 'unlabelled_between'],
     'shrink_budget': 300,
 }
@@ -50,7 +50,8 @@ def generate(seed, tier):
     nobj = r.randint(3, 9)
     objs = []
     for k in range(nobj):
-        objs.append({'kind': r.choice(KINDS), 'm': 'ob%d' % k, 'label': ('lab%d' % k) if r.random() < 0.7 else None})
+        objs.append({'kind': r.choice(KINDS), 'm': 'ob%d' % k, 'label': ('lab%d' % k) if r.random() < 0.7 else None,
+                     'lsp': r.random() < 0.15})
     labels = [o['label'] for o in objs if o['label']]
     refs = []
     for k in range(r.randint(2, 10)):
@@ -59,7 +60,8 @@ def generate(seed, tier):
             lab = 'nolabel%d' % r.randrange(3)
         else:
             lab = r.choice(labels)
-        refs.append({'m': 'rf%d' % k, 'label': lab, 'page': r.random() < 0.2})
+        refs.append({'m': 'rf%d' % k, 'label': lab, 'page': r.random() < 0.2,
+                     'place': r.choice(['body', 'body', 'body', 'title', 'footnote']), 'rsp': r.choice([0, 0, 0, 1, 2])})
     if labels and r.random() < 0.5:          # force several references to one label
         lab = r.choice(labels)
         for k in range(2):
@@ -70,8 +72,9 @@ def generate(seed, tier):
     for p in range(P):
         # slot s in [0, 2*nobj]: even 2j = before object j, odd 2j+1 = inside object j, 2*nobj = after the last
         orders.append([ro.randrange(2 * nobj + 1) for _ in refs])
-    ops = [{'op': 'OBJ', 'kind': o['kind'], 'm': o['m'], 'label': o['label']} for o in objs]
-    ops += [{'op': 'REF', 'm': x['m'], 'label': x['label'], 'page': x['page'], 'slots': [o[i] for o in orders]}
+    ops = [{'op': 'OBJ', 'kind': o['kind'], 'm': o['m'], 'label': o['label'], 'lsp': o.get('lsp', False)} for o in objs]
+    ops += [{'op': 'REF', 'm': x['m'], 'label': x['label'], 'page': x['page'], 'slots': [o[i] for o in orders],
+             'place': x.get('place', 'body'), 'rsp': x.get('rsp', 0)}
             for i, x in enumerate(refs)]
     return {'property': PID, 'seed': seed, 'swarm': {'P': P, 'transports': ['api', 'doc']}, 'ops': ops}
 
@@ -159,25 +162,36 @@ def _api_ref(doc, ctx, x):
 # --------------------------------------------------------------------------
 # transport 2: the schedule compiled to LaTeX, parsed by the real TeX
 
-def _ref_tex(x):
-    return 'R%s \\%s{%s}.' % (x['m'], 'pageref' if x['page'] else 'ref', x['label'])
+def _ref_tex(x, dot='.'):
+    lab = [x['label'], x['label'] + ' ', ' ' + x['label']][x.get('rsp', 0) % 3]      # blanks around the key are not part of it
+    return 'R%s \\%s{%s}%s' % (x['m'], 'pageref' if x['page'] else 'ref', lab, dot)
+
+
+def _ref_par(x):
+    if x.get('place') == 'footnote':
+        return 'Foot\\footnote{fn %s} note.' % _ref_tex(x)
+    return _ref_tex(x)
 
 
 def compile_doc(events):
     lines = ['\\documentclass{article}', '\\newtheorem{thm}{Theorem}', '\\newtheorem{lem}[thm]{Lemma}', '\\begin{document}']
     for e in events:
         if e[0] == 'REF':
-            lines.append(_ref_tex(e[1]))
+            lines.append(_ref_par(e[1]))
             lines.append('')
             continue
         o, inner = e[1], e[2]
-        half = len(inner) // 2
-        pre = ' '.join(_ref_tex(x) for x in inner[:half])
-        post = ' '.join(_ref_tex(x) for x in inner[half:])
-        lab = ('\\label{%s}' % o['label']) if o['label'] else ''
         k, m = o['kind'], o['m']
+        # references written inside the TITLE / CAPTION of the object itself
+        intitle = [x for x in inner if x.get('place') == 'title' and k in ('section', 'subsection', 'figure', 'table')]
+        inner = [x for x in inner if not any(x is y for y in intitle)]
+        ttl = ''.join(' ' + _ref_tex(x, '') for x in intitle)
+        half = len(inner) // 2
+        pre = ' '.join(_ref_par(x) for x in inner[:half])
+        post = ' '.join(_ref_par(x) for x in inner[half:])
+        lab = ('\\label{%s}' % ((' %s ' % o['label']) if o.get('lsp') else o['label'])) if o['label'] else ''
         if k in ('section', 'subsection'):
-            lines.append('\\%s{T%s}%s' % (k, m, lab))
+            lines.append('\\%s{T%s%s}%s' % (k, m, ttl, lab))
             lines.append('%s body%s %s' % (pre, m, post))
         elif k == 'equation':
             # references cannot stand inside display math: they go around it
@@ -193,7 +207,7 @@ def compile_doc(events):
         elif k == 'lemma':
             lines.append('\\begin{lem}%s %s %s %s\\end{lem}' % (lab, pre, m, post))
         elif k in ('figure', 'table'):
-            lines.append('\\begin{%s} %s \\caption{C%s}%s %s\\end{%s}' % (k, pre, m, lab, post, k))
+            lines.append('\\begin{%s} %s \\caption{C%s%s}%s %s\\end{%s}' % (k, pre, m, ttl, lab, post, k))
         elif k == 'theorem':
             lines.append('\\begin{thm}%s %s %s %s\\end{thm}' % (lab, pre, m, post))
         lines.append('')
@@ -369,6 +383,10 @@ def _probes(ev, objs, refs, info):
 
 
 def _one(x, seen, pending, info):
+    if x.get('place') == 'title':
+        info['ref_in_title'] = 1
+    if x.get('place') == 'footnote':
+        info['ref_in_footnote'] = 1
     if x['page']:
         info['pageref'] = 1
     if x['label'].startswith('nolabel'):
